@@ -43,6 +43,13 @@ func (vc *VC) candidateInvariants() (map[int][]*Clause, error) {
 	}
 	for _, b := range fn.Blocks {
 		for _, in := range b.Instrs {
+			if dr, ok := in.(*ssa.DebugRef); ok && !dr.IsAddr {
+				if v, ok := dr.Object().(*types.Var); ok && !v.IsField() {
+					if _, isSlice := v.Type().Underlying().(*types.Slice); isSlice || isString(v.Type()) {
+						add(&lens, v.Name())
+					}
+				}
+			}
 			fa, ok := in.(*ssa.FieldAddr)
 			if !ok {
 				continue
